@@ -102,6 +102,7 @@ def make_world(variant, seed=0):
     w["bboxes"] = [dict(fmin=0.05, fmax=0.07, dmin=10.0, dmax=100.0), dict(fmin=0.08, fmax=0.2)]
     w["freq_kwargs"] = {"freq": f.copy(), "hs": 2.0, "fp": 0.1}
     w["dir_kwargs"] = {"dir": d.copy(), "dm": 90.0, "dspr": 30.0}
+    w["da1d"] = xr.DataArray(own("da1d", (data[:, :, :, :].sum(axis=3) * 45.0)[0]), dims=["site", "freq"], coords={"site": np.array([1, 2, 3]), "freq": f.copy()}, name="efth")
     w["hsarr"] = xr.DataArray(own("hsarr", np.array([1.0, 2.0, 3.0])), dims=["site"], coords={"site": np.array([1, 2, 3])})
     w["_buffers"] = buffers
     return w
@@ -335,6 +336,16 @@ def build_ops(w0):
         from_ncswan(w["ncswan"]).compute()
 
     ops.append(("read_dataset/from_<model>(native)", f_native))
+
+    # frequency-only (1-D) spectra owned by the caller: every statistic that accepts them
+    for mname in ("hs", "hrms", "hmax", "tp", "fp", "tm01", "tm02", "swe", "sw", "gw", "alpha", "gamma", "goda", "mss", "momf", "oned", "to_energy", "celerity", "wavelen", "split", "scale_by_hs"):
+        def op1d(w, tmp, mname=mname):
+            args, kw = {"momf": ((2,), {}), "split": ((), dict(fmin=0.06, fmax=0.1)), "scale_by_hs": (("2*hs",), {}), "mss": ((), dict(depth=12.0))}.get(mname, ((), {}))
+            r = getattr(w["da1d"].spec, mname)(*args, **kw)
+            force(r)
+            if mname == "mss":
+                force(w["da1d"].spec.mss())
+        ops.append(("da1d.spec." + mname, op1d))
 
     def f_sel180(w, tmp):
         for m in ("nearest", "idw", "bbox"):
